@@ -236,6 +236,44 @@ def run(prog: Program, ctx: Ctx) -> None:  # noqa: PLR0912,PLR0915
         ctx.ob("R2", f"chain|{label}", got == want, f"{label}: griffe {got}; CPython {want}", where(sdi))
     ctx.expect_min("R2", rows, 600)
     ctx.analysed["dataclass_definitions"] = rows
+
+    # packages processed one after the other by the same extension instance: the base's package first (its InitVar pseudo-fields are deleted from the
+    # class once it is processed), then a package deriving from it - the derived __init__ still lists the inherited init-only parameters.
+    opl = prog.function("_griffe.extensions.dataclasses.DataclassesExtension.on_package_loaded")
+    mod_cls = prog.cls(f"{M}.Module")
+
+    def package(pname: str, classes: list[Obj]) -> Obj:
+        members = {c.attrs["name"]: c for c in classes}
+        return Obj(mod_cls, {"name": pname, "path": pname, "canonical_path": pname, "members": members, "is_alias": False, "is_module": True, "is_class": False}, label=pname)
+
+    def klass(cname: str, mod: str, fields: list[tuple[str, dict]], parents: list[Obj]) -> Obj:
+        members = {f: attribute(f, rep) for f, rep in fields}
+        o = Obj(cls_cls, {"name": cname, "path": f"{mod}.{cname}", "canonical_path": f"{mod}.{cname}", "members": members, "decorators": [decorator(None)], "labels": set(),
+                          "is_alias": False, "is_module": False, "is_class": True}, label=cname)
+        o.attrs["set_member"] = Native(lambda n_, v_, o=o: o.attrs["members"].__setitem__(n_, v_))
+        o.attrs["del_member"] = Native(lambda n_, o=o: o.attrs["members"].__delitem__(n_))
+        o.attrs["__mro__"] = parents
+        return o
+
+    it.stubs[f"{M}.Class.mro"] = lambda _i, self_: list(self_.attrs["__mro__"])
+    for n_pkgs in (1, 2):
+        base = klass("Base", "core", [("x", {}), ("seed", {"initvar": True}), ("scale", {"initvar": True, "value": "2"})], [])
+        derived = klass("Derived", "core" if n_pkgs == 1 else "plugin", [("y", {"value": "0"})], [base])
+        pkgs = [package("core", [base, derived])] if n_pkgs == 1 else [package("core", [base]), package("plugin", [derived])]
+        ext = Obj(prog.cls("_griffe.extensions.dataclasses.DataclassesExtension"), {}, label="extension")
+        captured.clear()
+        try:
+            it.steps = 0
+            for pk in pkgs:
+                it.call(opl, ext, pkg=pk)
+            got2: object = [[p.attrs["name"] for p in it._iterate(c)][1:] for c in captured]
+        except Raised as r:
+            got2 = f"raises {r.exc}"
+        want2 = [["x", "seed", "scale"], ["x", "seed", "scale", "y"]]
+        ctx.ob("R2", f"sequence|{n_pkgs} package(s)|InitVar base then derived", got2 == want2,
+               f"Base(x, seed: InitVar, scale: InitVar = 2) processed, then Derived(Base)(y = 0) in {'the same' if n_pkgs == 1 else 'a later'} package: "
+               f"synthesised parameter lists {got2}; CPython {want2}", where(opl))
+    it.stubs.pop(f"{M}.Class.mro", None)
     it.class_stubs.pop(f"{M}.Function", None)
 
     # ------------------------------------------------------------------ R3 label
